@@ -413,16 +413,18 @@ public:
     {
         const ConstructableType     defaultValue(*m_memoryManager);
 
-        if (newSize > size())
+        const size_type     theCurrentSize = size();
+
+        if (newSize > theCurrentSize)
         {
-            for (size_type i = 0; i < newSize - size(); ++i)
+            for (size_type i = theCurrentSize; i < newSize; ++i)
             {
                 push_back(defaultValue.value);
             }
         }
         else
         {
-            for (size_type i = 0; i < size() - newSize; ++i)
+            for (size_type i = theCurrentSize; i > newSize; --i)
             {
                 pop_back();
             }
